@@ -1,5 +1,5 @@
 """property id -> clauses (rule functions) + the honest remainder.  Single source for MANIFEST.json."""
-from . import r2, r3, r6, r7, r9, r10
+from . import r2, r3, r4, r6, r7, r9, r10
 
 
 def fam(*names):
@@ -57,9 +57,10 @@ T_R3 = "CFG dominance / guard-or-forward analysis over MIR in dev and release co
 
 PROPS = {
     "C01": {
-        "clauses": [fam("Add", "Sub"), signed("Add", "Sub"), both(r3.check_underflow_asserts), r3.check_checked_sub, r3.check_add2_carry_used],
+        "clauses": [fam("Add", "Sub"), signed("Add", "Sub"), both(r3.check_underflow_asserts), r3.check_checked_sub, r3.check_add2_carry_used, r4.check_block_loops, r4.check_block_loop_callers],
         "not_decided": "the scalar tail's adc/sbb arithmetic, carry propagation into the longer operand, result growth; sign/magnitude dispatch tables (planned R5)",
-        "level_text": "Decides structural necessary conditions for every input: all + and - operator forms forward with operands in order (never swapped for -), "
+        "level_text": "Decides structural necessary conditions for every input: the two x86_64 block loops are well-formed carry chains (template data flow, addressing, "
+        "counter = len/5, carry preserved to setc, add/sub agree) and hand (carry, done) to the scalar tail; all + and - operator forms forward with operands in order (never swapped for -), "
         "the underflow assertions of sub2/sub2rev are mandatory in release builds and test both the final borrow and the subtrahend's high digits, "
         "checked_sub returns None exactly on Less and subtracts only on Greater, and no call site drops the carry returned by __add2.",
         "technique": T_R2 + "; " + T_R3,
@@ -162,6 +163,16 @@ PROPS = {
         "checked variants return None on the failure edge and reach the panicking operation only behind the excluding edge; no mandatory assertion is "
         "debug-only; debug-only code is effect-free.",
         "technique": T_R3 + "; dev-vs-release panic-site inventory",
+    },
+    "C15": {
+        "clauses": [r4.check_inventory, r4.check_block_loops, r4.check_block_loop_callers, r4.check_div_wide, r3.check_div_guards, r4.check_utf8, r4.check_raw_slice],
+        "not_decided": "digits < radix out of to_radix_le and ceil(b/32) <= 2*ceil(b/64) (arithmetic facts, listed as assumptions); register-level effects of the `in(reg)` block counter being decremented (observation O1, noted)",
+        "level_text": "Decides for every input: the unsafe inventory is closed (3 asm blocks, 5 unsafe calls); the block loops address only [ptr + 8*idx + K] with K inside the "
+        "stride, run size/stride iterations guarded by size/stride != 0, store only through the *mut operand, and both pointers cover `len` digits by "
+        "construction at both call sites - hence every access is inside the operands; the hardware div is reached only with hi < divisor (dominating "
+        "comparison or remainder invariant with a guarded non-zero divisor); from_utf8_unchecked sees only bytes mapped to ASCII digits/letters, '-' and "
+        "reverse(); the u32 view of the u64 buffer comes from the local vec, escapes only to gen_bits, lengths depend on bit_size alone.",
+        "technique": "inline-asm template data-flow analysis (reaching definitions over the instruction list) + MIR def-use/dominance at the call sites; closed-world unsafe inventory",
     },
     "C16": {
         "clauses": [r6.check_matrix, r6.check_feature_stability, r6.check_cfg_taint, r3.check_inventory],
